@@ -156,7 +156,7 @@ def statuses(w, text, docs):
 
 def shard(ctx):
     rng = ctx.rng("c14")
-    o = gen.Opts(types=True, calls=True, msgs=True, max_rules=3, max_lines=3, keys_filters=True, some_lets=True)
+    o = gen.Opts(types=True, calls=True, msgs=True, max_rules=3, max_lines=3, keys_filters=True, some_lets=True, interp=True)
     o.scalars = list(o.scalars) + ["it's", 'say "hi"', "o'", '"']       # strings that need an escape under one of the two quote styles
     nprog = 8 if ctx.quick else 260
     cover = ctx.res.extra.setdefault("class_context_programs", core.Counter())
